@@ -14,6 +14,7 @@ def scenario(task):
     y0_grad = task[7] if len(task) > 7 else True
     extras_loss = task[8] if len(task) > 8 else False
     subset = task[9] if len(task) > 9 else False        # adjoint_params = the diffusion parameters only (a documented option)
+    twice = task[10] if len(task) > 10 else False       # two backward passes through the same forward solve (retain_graph=True)
     grads = []
     fw = []
     for adjoint in (True, False):
@@ -39,6 +40,10 @@ def scenario(task):
         params = [sde.gb] if subset else list(sde.parameters())
         # a fixed initial condition (y0 not requiring grad, only the parameters are trained) is a different autograd path
         try:
+            if twice:
+                # the backward pass must be repeatable: a second loss differentiated through the SAME autograd node
+                torch.autograd.grad(loss, ([y0] if y0_grad else []) + params, allow_unused=True, retain_graph=True)
+                loss = e1.weighted_loss(mk, ys, prefix='lx')
             g = torch.autograd.grad(loss, ([y0] if y0_grad else []) + params, allow_unused=True)
         except Exception as e:
             if not adjoint:
@@ -74,6 +79,7 @@ def tasks_for(tier):
     T += [('diagonal', 1, 2, 1, ts2, 0.1, 2, False), ('general', 1, 2, 1, ts2, 0.1, 1, False)]
     T += [('diagonal', 1, 2, 1, ts2, 0.1, 1, True, True), ('general', 1, 2, 1, ts2, 0.1, 1, False, True)]      # loss also on the returned extras
     T += [('diagonal', 1, 2, 1, ts2, 0.1, 1, True, False, True), ('additive', 1, 2, 1, ts2, 0.1, 1, True, False, True)]    # adjoint_params = a subset
+    T += [('diagonal', 1, 2, 1, ts2, 0.1, 1, True, False, False, True), ('general', 1, 2, 1, ts2, 0.1, 1, True, False, False, True)]    # backward twice
     if tier != 'quick':
         T += [(nt, 2, 2, 2, ts2, 0.1, 1) for nt in ('diagonal', 'scalar', 'additive', 'general')]
         T += [(nt, 1, 2, 1, ts3, 0.1, 1) for nt in ('diagonal', 'general')]
@@ -92,7 +98,7 @@ def run(ctx):
     tasks = tasks_for(ctx.tier)
     tw = 0
     for t, (st_, res) in zip(tasks, pmap(scenario, tasks)):
-        name = f"noise={t[0]} d={t[1]} m={t[2]} B={t[3]} ts={t[4]} deg={t[6]}" + (" y0 without grad" if len(t) > 7 and not t[7] else "") + (" loss on extras" if len(t) > 8 and t[8] else "") + (" adjoint_params=subset" if len(t) > 9 and t[9] else "")
+        name = f"noise={t[0]} d={t[1]} m={t[2]} B={t[3]} ts={t[4]} deg={t[6]}" + (" y0 without grad" if len(t) > 7 and not t[7] else "") + (" loss on extras" if len(t) > 8 and t[8] else "") + (" adjoint_params=subset" if len(t) > 9 and t[9] else "") + (" second backward pass" if len(t) > 10 and t[10] else "")
         if st_ != 'ok':
             ctx.inconc(name, str(res)[:600]); continue
         ctx.paths += 1; ctx.queries += res['queries']; ctx.solver_s += res['solver_s']; ctx.validated += 2
@@ -114,6 +120,7 @@ def replay(data):
     y0_grad = task[7] if len(task) > 7 else True
     extras_loss = task[8] if len(task) > 8 else False
     subset = task[9] if len(task) > 9 else False
+    twice = task[10] if len(task) > 10 else False
     out = []
     for adjoint in (True, False):
         mk = sdes.Maker(symbolic=False, seed=21)
@@ -137,6 +144,9 @@ def replay(data):
         for k, x in enumerate(extras):
             loss = loss + (x * (0.3 + 0.1 * k + 0.05 * torch.arange(x.numel(), dtype=x.dtype).reshape(x.shape))).sum()
         try:
+            if twice:
+                torch.autograd.grad(loss, ([y0] if y0_grad else []) + ([sde.gb] if subset else list(sde.parameters())), allow_unused=True, retain_graph=True)
+                loss = (ys * (0.2 + w * w)).sum()
             g = torch.autograd.grad(loss, ([y0] if y0_grad else []) + ([sde.gb] if subset else list(sde.parameters())), allow_unused=True)
         except Exception as e:
             print('replay C10: crash in backward', type(e).__name__, e)
